@@ -64,7 +64,16 @@ class Fact:
 
 
 def _root_names(expr):
-    return {n.id for n in ast.walk(expr) if isinstance(n, ast.Name)}
+    bound = set()
+    for n in ast.walk(expr):
+        if isinstance(n, ast.comprehension):
+            for t in ast.walk(n.target):
+                if isinstance(t, ast.Name):
+                    bound.add(t.id)
+        elif isinstance(n, ast.Lambda):
+            for a in n.args.args:
+                bound.add(a.arg)
+    return {n.id for n in ast.walk(expr) if isinstance(n, ast.Name)} - bound
 
 
 def _stores_in(node, into_nested=False):
